@@ -29,7 +29,9 @@ func runC08(c *Ctx, r *Report) {
 	r.Doc("R-C08.5", "every reader and writer on the load path uses the configured codec (an entry written by one codec and read by the default one does not read back equal)")
 	optionForwarding(c, r, "R-C08.5", append(append(loaderFetchSpecs(), constructorLoaderSpecs()...), constructorLogSpecs()...), "IO")
 	r.Doc("R-C08.7", "the loops of the writers and readers (link lists, head lists) process every element")
-	loopsComplete(c, r, "R-C08.7", func(fn *Fn) bool { return inPkgs(c.P, fn, "io/jsonable", "io/cbor", "io/pb") || rootNamed(fn, "ToJSONLog", "Normalize", "entrySliceToCids") }, "links or heads after the point where the loop stops are not written (or not read back): the entry read back differs from the one written")
+	loopsComplete(c, r, "R-C08.7", func(fn *Fn) bool {
+		return inPkgs(c.P, fn, "io/jsonable", "io/cbor", "io/pb") || rootNamed(fn, "ToJSONLog", "Normalize", "entrySliceToCids")
+	}, "links or heads after the point where the loop stops are not written (or not read back): the entry read back differs from the one written")
 
 	// ---- R-C08.1
 	ioFn := p.FuncI("io/cbor", "", "IO")
@@ -468,13 +470,26 @@ func runC08(c *Ctx, r *Report) {
 					nacc++
 					sf := p.SSAFunc(fn)
 					okStore := false
+					reshaped := ""
 					allInstrs(sf, false, func(ins ssa.Instruction) {
 						if st, ok := ins.(*ssa.Store); ok {
 							if fv, _ := fieldOf(st.Addr); fv == f && len(sf.Params) == 2 && backSlice(st.Val, nil)[sf.Params[1]] {
 								okStore = true
+								// a list setter must keep the list's shape: append(nil, list...) turns an empty list into nil,
+								// which the codec writes as null instead of []
+								if call, ok := st.Val.(*ssa.Call); ok {
+									if b, ok := call.Call.Value.(*ssa.Builtin); ok && b.Name() == "append" && len(call.Call.Args) > 0 {
+										if cst, ok := call.Call.Args[0].(*ssa.Const); ok && cst.IsNil() {
+											reshaped = p.Pos(st.Pos())
+										}
+									}
+								}
 							}
 						}
 					})
+					if reshaped != "" {
+						r.Violate("R-C08.8", r.Key("R-C08.8", fn, "setter-shape", f.Name()), fn.Body.Pos(), name+" stores append(nil, list...) (at "+reshaped+"): an empty list handed in becomes nil, so a decoded entry whose list is empty re-encodes as null — another identifier than the one it was read from")
+					}
 					r.Check(okStore, "R-C08.8", r.Key("R-C08.8", fn, "setter", f.Name()), fn.Body.Pos(), name+" stores its argument in "+f.Name(),
 						name+" does not store its argument in the field "+f.Name()+": entries filled by the decoders lose that field, so an entry read back differs from the one written")
 				case strings.HasPrefix(name, "Get") && sig.Params().Len() == 0 && sig.Results().Len() == 1:
@@ -649,6 +664,17 @@ func detScan(c *Ctx, r *Report, rule string, fn *Fn) {
 				}
 			}
 		case *ast.CallExpr:
+			// a package-level container that is filled on this path (an LRU, a sync.Map, a pool …)
+			if se, ok := ast.Unparen(x.Fun).(*ast.SelectorExpr); ok {
+				switch se.Sel.Name {
+				case "Add", "Set", "Store", "Put", "Push", "ContainsOrAdd", "PeekOrAdd", "LoadOrStore":
+					if id, ok := ast.Unparen(se.X).(*ast.Ident); ok {
+						if v, ok := p.ObjOf(fn, id).(*types.Var); ok && !v.IsField() && v.Pkg() != nil && v.Parent() == v.Pkg().Scope() && p.firstParty(v.Pkg()) {
+							r.Violate(rule, r.Key(rule, fn, "package-cache", v.Name()), x.Pos(), "the package-level container "+v.Name()+" is filled ("+se.Sel.Name+") on this path: what is computed for one input is remembered and handed out for later inputs that map to the same slot")
+						}
+					}
+				}
+			}
 			if cf := p.Callee(fn, x); cf != nil && cf.Pkg() != nil {
 				switch cf.Pkg().Path() {
 				case "time", "math/rand", "crypto/rand":
